@@ -334,6 +334,25 @@ class ElemStorage {
   alignas(T) std::uint8_t _el[sizeof(T)];
 };
 
+/// Construct at 'pos' the T from 'args' parameters, shifting 'n' elements starting at 'pos' to the right.
+/// The new element is constructed before the shift, as 'args' may refer to one of the elements to be shifted.
+template <class T, class SizeType, class... Args>
+inline void emplace_shift(T *pos, SizeType n, Args &&...args) {
+  if (n == 0) {
+    amc::construct_at(pos, std::forward<Args>(args)...);
+  } else {
+    ElemStorage<T> e;
+    amc::construct_at(e.ptr(), std::forward<Args>(args)...);
+    shift_right(pos, n);
+    try {
+      relocate_after_shift(e.ptr(), pos);
+    } catch (...) {
+      shift_left(pos + 1, n);
+      throw;
+    }
+  }
+}
+
 /// This class represents a merge of a pointer and some inline storage elements.
 /// Thanks to this optimization, SmallVector behaves like a string type with SSO
 /// Example : for a system with pointer size of 8 bytes,
@@ -815,7 +834,7 @@ class StaticVector : public StaticVectorBase<T, SizeType> {
     assert(position >= this->cbegin() && position <= this->cbegin() + this->size());
     GrowingPolicy::Check(this->size() + 1U, this->capacity());
     iterator pos = const_cast<iterator>(position);
-    emplace_n(pos, this->size() - (pos - this->begin()), std::forward<Args>(args)...);
+    emplace_shift(pos, static_cast<SizeType>(this->size() - (pos - this->begin())), std::forward<Args>(args)...);
     this->incrSize();
     return pos;
   }
@@ -929,7 +948,7 @@ class DynamicVector : public DynamicVectorBaseTypeDispatcher<T, Alloc, SizeType,
       }
     } else {
       pos = const_cast<iterator>(position);
-      emplace_n(pos, nElemsToShift, std::forward<Args>(args)...);
+      emplace_shift(pos, nElemsToShift, std::forward<Args>(args)...);
     }
     this->incrSize();
     return pos;
@@ -1263,7 +1282,12 @@ class VectorImpl : public VectorDestr<T, Alloc, SizeType, WithInlineElements, Gr
     assert(position >= this->cbegin() && position <= cend());
     const_reference newV = this->adjustCapacity(static_cast<uintmax_t>(this->size()) + 1U, v, &position);
     iterator pos = const_cast<iterator>(position);
-    insert_n(pos, this->size() - (pos - this->begin()), newV);
+    // If 'v' is one of the elements about to be shifted, it will be found one slot to the right
+    const_pointer pV = std::addressof(newV);
+    if (pV >= pos && pV < end()) {
+      ++pV;
+    }
+    insert_n(pos, this->size() - (pos - this->begin()), *pV);
     this->incrSize();
     return pos;
   }
@@ -1286,8 +1310,13 @@ class VectorImpl : public VectorDestr<T, Alloc, SizeType, WithInlineElements, Gr
       if (nElemsToShift == 0) {
         std::uninitialized_fill_n(pos, count, newV);
       } else {
+        // If 'v' is one of the elements about to be shifted, it will be found 'count' slots to the right
+        const_pointer pV = std::addressof(newV);
+        if (pV >= pos && pV < end()) {
+          pV += count;
+        }
         shift_right(pos, nElemsToShift, count);
-        fill_after_shift(pos, nElemsToShift, count, newV);
+        fill_after_shift(pos, nElemsToShift, count, *pV);
       }
       this->setSize(this->size() + count);
     } else {
